@@ -336,16 +336,31 @@ class Hist(Scenario):
         self.g("checkout", "-q", "-b", feat)
         nfc = feat_commits or rng.choice([1, 2, 2, 3])
         disjoint = not pf.get("rebase_conflicts", True)
+        order = list(self.files); rng.shuffle(order)
+        wheres0 = [os.environ["VERIF_UPSTREAM"]] if os.environ.get("VERIF_UPSTREAM") else ([pf["upstream_where"]] if pf.get("upstream_where") else ["same", "same", "other", "new"])
+        upstream_where = upstream_where or rng.choice(wheres0)
+        # finding D20: the full replay mis-places attributions for general same-file rebases; while it is open, same-file rebases are
+        # generated in the sub-class it handles (agent insertions on the feature side, a person's insertions upstream, plain `rebase`,
+        # a conflict aborts the rebase) and everything else keeps upstream changes in other files
+        simple = (upstream_where == "same" and not pf.get("rebase_upstream_same_file", True)) or bool(os.environ.get("VERIF_REBASE_SIMPLE"))
+        if simple:
+            kind = "plain"
+            disjoint = False
         if disjoint:
             nfc = min(nfc, len(self.files))
-            order = list(self.files); rng.shuffle(order)
+        one_session = rng.choice(self.sessions)
         for i in range(nfc):
             for _ in range(rng.choice([1, 1, 2])):
-                self.do_edit(f=order[i] if disjoint else None)
+                if simple:
+                    # sub-class of same-file rebases that the full replay handles: insertions by ONE agent session on the feature side
+                    # (adjacent insertions of different sessions get each other's credit, part of finding D20)
+                    self.do_edit(author=one_session, kinds=["ins"])
+                else:
+                    self.do_edit(f=order[i] if disjoint else None)
             self.commit_all("feat%d" % i)
         self.g("checkout", "-q", base_branch)
         # upstream change: above / below / interleaved / other file
-        wheres = [x for x in ["same", "same", "other", "new"] if x != "same" or pf.get("rebase_upstream_same_file", True)]
+        wheres = ["same", "same", "other", "new"]
         if os.environ.get("VERIF_UPSTREAM"):
             wheres = [os.environ["VERIF_UPSTREAM"]]
         where = upstream_where or rng.choice(wheres)
@@ -367,7 +382,10 @@ class Hist(Scenario):
                     f = rng.choice(cands)
                 else:
                     f = rng.choice(self.files)
-                self.do_edit(author=rng.choice(["human", "human"] + self.sessions), f=f, kinds=["ins", "ins", "del", "rep"])
+                if simple:
+                    self.do_edit(author="human", f=f, kinds=["ins"])
+                else:
+                    self.do_edit(author=rng.choice(["human", "human"] + self.sessions), f=f, kinds=["ins", "ins", "del", "rep"])
             self.commit_all("upstream")
         onto_branch = None
         if kind == "onto" and nfc >= 2:
@@ -399,7 +417,7 @@ class Hist(Scenario):
                     self.do_edit()
                     self.g("add", "-A"); self.g("commit", "-q", "--amend", "--no-edit")
                 self.g("-c", "core.editor=true", "rebase", "--continue")
-            outcome = self.finish_in_progress("rebase")
+            outcome = self.finish_in_progress("rebase", decide="abort" if simple else None)
         self.log.append(["rebase-outcome", outcome])
         if outcome == "done":
             self.g("checkout", "-q", base_branch)
@@ -572,7 +590,10 @@ class Hist(Scenario):
         rng = self.rng
         f = rng.choice(self.files)
         ch = rng.choice(["reset-hard", "checkout-path", "restore", "restore-staged", "checkout-f", "stash-drop", "clean", "rm", "mv",
-                         "branch-D", "reset-path", "restore-source", "stash-clear", "switch-discard"])
+                         "branch-D", "reset-path", "restore-source", "stash-clear", "switch-discard", "checkout-f-away", "switch-discard-away",
+                         "checkout-f-away", "reset-hard-back"])
+        if ch in ("stash-drop", "stash-clear") and not self.profile.get("stash_discard_with_initial_pending", True) and self.pending_initial_files():
+            ch = "reset-hard"   # finding D36: stash push + drop/clear while INITIAL-only claims are pending leaves them behind
         if ch == "reset-hard":
             self.g("reset", "-q", "--hard", rng.choice(["HEAD", "HEAD", "HEAD~1"]) if self.ncommits() > 1 else "HEAD")
         elif ch == "checkout-path":
@@ -588,6 +609,23 @@ class Hist(Scenario):
             self.g("checkout", "-q", "-f", self.current_branch() or "HEAD")
         elif ch == "switch-discard":
             self.g("switch", "-q", "--discard-changes", self.current_branch() or "main")
+        elif ch in ("checkout-f-away", "switch-discard-away"):
+            # discard the work by force-moving HEAD to another commit, then come back with a plain checkout
+            cur = self.current_branch()
+            if cur and self.ncommits() > 1:
+                away = self.new_branch_name("away")
+                self.w.git("branch", away, "HEAD~1", plain=True, tick=False)
+                if ch == "checkout-f-away":
+                    self.g("checkout", "-q", "-f", away)
+                else:
+                    self.g("switch", "-q", "--discard-changes", away)
+                self.g("checkout", "-q", cur)
+        elif ch == "reset-hard-back":
+            # hard reset to an older commit and back to the tip: all uncommitted work is gone
+            if self.ncommits() > 1:
+                tip = self.head()
+                self.g("reset", "-q", "--hard", "HEAD~1")
+                self.g("reset", "-q", "--hard", tip)
         elif ch == "stash-drop":
             self.g("stash", "push", "-q", "-u"); self.g("stash", "drop", "-q")
         elif ch == "stash-clear":
